@@ -1,6 +1,7 @@
 import Vata.Parse
 import Vata.Generated.Tables
 import Vata.InclUpBdd
+import Vata.BddIsect
 /-! # Driver side of the BDD-encoding checks: `bddincl`, `bddinclall` (C07), `bddh`, `bddtd` (C08) -/
 open Vata
 
@@ -64,7 +65,10 @@ def dumpAt (res : List String) (k i : Nat) : Except String (Option TA) :=
   | none => pure none
   | some t => do pure (some (← getE (parseTA? t) s!"bad TA {k}.{i}"))
 
-partial def go (steps res : List String) (k : Nat) (pool : List (Option TA)) (f : List String) (tags : List String)
+def dedupRulesB (rs : List Rule) : List Rule := rs.foldl (fun acc r => if acc.contains r then acc else acc ++ [r]) []
+def pairsEq (l₁ l₂ : List (Nat × Nat)) : Bool := l₁.all (fun p => l₂.contains p) && l₂.all (fun p => l₁.contains p)
+
+partial def go (enc : String) (steps res : List String) (k : Nat) (pool : List (Option TA)) (f : List String) (tags : List String)
     : Except String (List String × List String) :=
   match steps with
   | [] => pure (f, tags)
@@ -137,6 +141,25 @@ partial def go (steps res : List String) (k : Nat) (pool : List (Option TA)) (f 
       let vals := pm.map (·.2)
       if !((List.range vals.length).all (fun i => vals.contains i)) then
         f := f ++ [s!"violation uninitialised-counter step {k}: product states are not numbered 0..{vals.length - 1}: {vals.take 6}"]
+      -- the L2 models of the symbolic intersections as coded (`bddIsectTD_lang`, `bddIsectBU_lang`, `bddIsect_numbers_dense`,
+      -- totality): the SET of product pairs the algorithm discovers is determined by the operands (their numbers are not:
+      -- hash orders) – it must be the domain of the reported map, and the number of rules of the result must agree
+      let symsAll := dedupL ((A.rules ++ B.rules).map (·.sym))
+      let mo : Option (List Rule × Vata.PMap) :=
+        if enc == "td" then
+          (Vata.BddIsect.bddIsectTDRef (Vata.BddAbsTD.ofRulesTD A.rules) A.final (Vata.BddAbsTD.ofRulesTD B.rules) B.final).map
+            (fun r => (Vata.BddAbsTD.absRulesTD symsAll r.1, r.2.2))
+        else
+          (Vata.BddIsect.bddIsectBURef (Vata.BddAbs.ofRules A.rules) A.final (Vata.BddAbs.ofRules B.rules) B.final).map
+            (fun r => (Vata.BddAbs.absRules symsAll r.1, r.2.2))
+      match mo with
+      | some (mr, mm) =>
+        if f.isEmpty then
+          if !(pairsEq (pm.map (·.1)) mm.dom) then
+            f := f ++ [s!"mismatch step {k} symbolic-intersection model: product pairs {mm.dom} but the implementation reports {pm.map (·.1)}"]
+          else if (dedupRulesB mr).length != (dedupRulesB D.rules).length then
+            f := f ++ [s!"mismatch step {k} symbolic-intersection model: {(dedupRulesB mr).length} rules, implementation {(dedupRulesB D.rules).length}"]
+      | none => f := f ++ [s!"mismatch step {k} symbolic-intersection model returned none"]
       let e ← getE (emptyM D FUEL) "fuel"
       tags := tags ++ [s!"isectempty={bchar e}"]
       pool' := pool ++ [some D]; touched := some newIx
@@ -163,12 +186,12 @@ partial def go (steps res : List String) (k : Nat) (pool : List (Option TA)) (f 
       | none, none => pure ()
       | some _, none => f := f ++ [s!"violation step {k}: live entry {i} not dumped"]
       | none, some _ => throw "dead entry dumped"
-    go rest res (k + 1) pool'' f tags
+    go enc rest res (k + 1) pool'' f tags
 
 def checkHist (args res : List String) : Except String (List String × String) := do
   let enc := args[0]!
   -- steps are numbered from 1 in the harness output (argument 0 is the encoding)
-  let (f, tags) ← go (args.drop 1) res 1 [] [] []
+  let (f, tags) ← go enc (args.drop 1) res 1 [] [] []
   pure (f, s!"enc={enc} " ++ " ".intercalate tags)
 
 def checkToTd (args res : List String) : Except String (List String × String) := do
